@@ -318,7 +318,7 @@ class CG(LinearSolver):
             b = rhs.reshape((rhs.size, 1))
         else:
             b = rhs
-        x = np.zeros_like(rhs, dtype=np.result_type(rhs, A)) if x0 is None else x0.copy()
+        x = np.zeros_like(rhs, dtype=np.result_type(rhs, A)) if x0 is None else x0.astype(np.result_type(rhs, A, x0))
         if x.ndim == 1:
             x = x.reshape((x.size, 1))
 
